@@ -8,11 +8,16 @@ def fails(obs, case):
         real = [p for p in parts if p and not p.startswith("harness:")]
         if real:
             return "panic"
+        # assertions of the un-owned components (util, walker) that no other property consumes: the call returned
+        # something the totality theorems' models cannot produce
+        for p in parts:
+            if "deref and as_ref differ" in p or "malformed JSON" in p or "positions not ascending" in p:
+                return "harness-assertion"
         return None
     if obs.startswith("!abort"):
         return "abort"
     # harnesses that catch a panic per call and report it inside a row (wrapper / JSON component)
-    if "=!panic:" in obs or "~!panic:" in obs or ":!panic:" in obs:
+    if "!panic:" in obs:
         return "panic-in-row"
     return None
 
